@@ -76,5 +76,5 @@ def compare_ops(ctx, scripts, model, impl, faults, violations, expected=None, ju
 def replay_lines(path):
     with open(path) as f:
         txt = f.read()
-    m = re.search(r"=== \S+ codec[^\n]*\n(.*?)\n(?:\n---|\Z)", txt, flags=re.S)
+    m = re.search(r"=== \S+ (?:codec|server)[^\n]*\n(.*?)\n(?:\n---|\Z)", txt, flags=re.S)
     return [l for l in (m.group(1) if m else txt).splitlines() if l.strip() and not l.startswith("#") and not l.startswith("===")]
